@@ -199,6 +199,10 @@ func (cli *Client) Enroll(c net.Conn) (Conn, error) {
 func (cli *Client) EnrollContext(c net.Conn, ctx any) (Conn, error) {
 	defer c.Close() //nolint:errcheck
 
+	if cli.eng.isShutdown() {
+		return nil, errorx.ErrEngineInShutdown
+	}
+
 	sc, ok := c.(syscall.Conn)
 	if !ok {
 		return nil, errors.New("failed to convert net.Conn to syscall.Conn")
